@@ -215,11 +215,31 @@ def nested_call_probes(ctx, ws):
                              f"a call whose argument is a call: macro rule -> {str(a[:2])[:160]}, inlined by hand -> {str(b[:2])[:160]}")
 
 
+def times_body_probes(ctx, ws):
+    """A string macro used as the KEY of an item whose body is a `times` entry, for every kind of count (0, 1, n, {min: 0, max: 0},
+    {min: 0, max: n}, only min, only max): the rule compiles to what the rule with the macro's text written out compiles to.
+    Identical at every seed."""
+    for body in ("nop", "no", "p"):
+        for t in (0, 1, 2, 3, {"min": 0, "max": 0}, {"min": 0, "max": 2}, {"min": 1, "max": 1}, {"min": 2, "max": 3}, {"max": 2}, {"min": 0}):
+            for name in ("@n", "@gp-reg_", "@a_very_long_macro_name_H_"):
+                text_m = real.dump_rule({"macros": [{"name": name, "pattern": body}], "pattern": ["push", {name: {"times": t}}, "ret"]})
+                text_i = real.dump_rule({"pattern": ["push", {body: {"times": t}}, "ret"]})
+                rm, ri = real.compile_rule(ws.write("tb_m.yaml", text_m)), real.compile_rule(ws.write("tb_i.yaml", text_i))
+                ctx.ran(2)
+                ctx.event("times_body_probes")
+                ctx.case(("times-body", text_m), True, stratum="string macro with a times body", outcome=rm[0])
+                if rm[:2] != ri[:2]:
+                    ctx.disagreement({"macro_rule": text_m, "extra_macro_files": [], "inlined_rule": text_i, "forms": ["times-body-probe"], "listing": "", "sinsts": []},
+                                     f"string macro {name} = {body!r} with the body times: {t}: macro rule -> {str(rm[:2])[:200]}; written out -> {str(ri[:2])[:200]}")
+
+
 def run_shard(ctx):
     d = drive.Driver(ctx, feat, flags="none", styles=("mixed", "dups", "runs"))
     library_sequence_stratum(ctx, d.ws, ctx.share(48, 2000))
     if ctx.shard == 3 % ctx.nshards:
         nested_call_probes(ctx, d.ws)
+    if ctx.shard == 4 % ctx.nshards:
+        times_body_probes(ctx, d.ws)
     n = ctx.share(2000, 250000)
     done = 0
     while done < n:
@@ -242,6 +262,8 @@ def replay(ctx, case):
     key = "macro_arg_resubstitution" if "param:arg-value-equals-later-formal" in case.get("forms", []) else None
     if rm[0] != ri[0]:
         ctx.disagreement(case, f"macro rule: {rm[:2]}; inlined rule: {str(ri[:2])[:200]}", key)
+    elif rm[0] == "ok" and rm[1] != ri[1] and "times-body-probe" in case.get("forms", []):
+        ctx.disagreement(case, f"macro rule -> {rm[1][:200]}; written out -> {ri[1][:200]}")
     elif rm[0] == "ok" and rm[1] != ri[1]:
         prep = dsl.prep_from_case(ws, case)
         diff = behaviour(ctx, ws, prep, case["macro_rule"], files, case["inlined_rule"])
